@@ -590,6 +590,26 @@ def str_nf(I: Interp, t, tree, stringy=lambda x: False):
     ('cond', c, nf, nf), ('join', sep, segments with normalised elements) for joins over loops, or opaque terms.
     Concatenation, ''.join over a list of known elements, f-strings and sep.join are all flattened, so any way of
     assembling the same text has the same normal form.  ``stringy(x)``: x is known to be a str (str(x) == x)."""
+    stringy0 = stringy
+
+    def stringy(x, depth=0):
+        """known to be a str: said so by the caller, or a str by construction (result of a str method that returns str, an
+        f-string, a concatenation with one)"""
+        if stringy0(x):
+            return True
+        if not isinstance(x, tuple) or not x or depth > 6:
+            return False
+        if x[0] == "fstr" or (is_const(x) and isinstance(x[1], str)):
+            return True
+        if x[0] == "call" and x[1] in (".join", ".strip", ".rstrip", ".lstrip", ".replace", ".format", ".lower", ".upper", ".casefold", ".removeprefix",
+                                       ".removesuffix", ".expandtabs", ".title", "str"):
+            return True
+        if x[0] == "binop" and x[1] == "Add":
+            return stringy(x[2], depth + 1) or stringy(x[3], depth + 1)
+        if x[0] == "cond":
+            return stringy(x[2], depth + 1) and stringy(x[3], depth + 1)
+        return False
+
     def parts(x):
         if not isinstance(x, tuple) or not x:
             return [x]
